@@ -2,7 +2,8 @@
  *
  * One hawk program (PROG below) is parsed once.  It is an interpreter loop: the builtin
  * nextop() (registered here with hawk_addfnc) hands it the next protocol line read from
- * stdin, the program performs the corresponding hawk statement ($0 = s, $i = v, NF = n,
+ * stdin, the program performs the corresponding hawk statement ($0 = s, $i = v, NF = n (also from a
+ * string, a float, an unset variable, ++NF, --NF, NF++, NF += k, getline NF), f($j)/f(NF) with f(&x) only reading x,
  * sub/gsub, OFS/FS/OFMT/STRIPRECSPC assignment, plain getline, `next` to let the main loop
  * read the next record, reads of $j) and then calls dump(), which prints
  *   - what the program itself read: NF, $0, every $i by value and through a positional
@@ -27,7 +28,16 @@ static const char* PROG =
 "  for (i = 1; i <= NF + 1; i++) { v = v \"[\" esc($i) \"]\"; r = r \"[\" (spanok(i)? esc(hawk::call(\"substr\", $i, 1)): \"DANGLING\") \"]\"; }\n"
 "  dump(NF, $0, v, r, extra);\n"
 "}\n"
-"function doop(op,   c, x, y, j) {\n"
+"function idf(&x) { return x \"!\"; }\n"
+"function doop(op,   c, x, y, j, k) {\n"
+"  if (op == \"setnfv\") { k = argw(1); if (k == \"s\") NF = arg(2); else if (k == \"f\") NF = argf(2); else NF = neverset; return \"\"; }\n"
+"  if (op == \"incnf\") { ++NF; return \"\"; }\n"
+"  if (op == \"decnf\") { --NF; return \"\"; }\n"
+"  if (op == \"postinc\") { c = NF++; return \" c=\" c; }\n"
+"  if (op == \"addnf\") { NF += argn(1); return \"\"; }\n"
+"  if (op == \"getlinenf\") { c = (getline NF); return \" c=\" c; }\n"
+"  if (op == \"refcall\") { y = idf($(argn(1))); return \" y=\" esc(y); }\n"
+"  if (op == \"refcallnf\") { y = idf(NF); return \" y=\" esc(y); }\n"
 "  if (op == \"set0\") { $0 = arg(1); return \"\"; }\n"
 "  if (op == \"self0\") { $0 = $0; return \"\"; }\n"
 "  if (op == \"setf\") { $(argn(1)) = arg(2); return \"\"; }\n"
@@ -223,7 +233,7 @@ static int fnc_nextop (hawk_rtx_t* rtx, const hawk_fnc_info_t* fi)
 	if (NW == 0) v = hawk_rtx_makestrvalwithbchars(rtx, "", 0);
 	else
 	{
-		if ((strcmp(W[0], "getline") == 0 || strcmp(W[0], "next") == 0) && NW >= 2) push_console (W[1]);
+		if ((strcmp(W[0], "getline") == 0 || strcmp(W[0], "next") == 0 || strcmp(W[0], "getlinenf") == 0) && NW >= 2) push_console (W[1]);
 		v = hawk_rtx_makestrvalwithbchars(rtx, W[0], strlen(W[0]));
 	}
 	if (!v) return -1;
@@ -253,6 +263,30 @@ static int fnc_argn (hawk_rtx_t* rtx, const hawk_fnc_info_t* fi)
 {
 	int k = get_k(rtx);
 	hawk_val_t* v = hawk_rtx_makeintval(rtx, (k >= 0 && k < NW)? (hawk_int_t)strtoll(W[k], NULL, 10): 0);
+	if (!v) return -1;
+	hawk_rtx_setretval (rtx, v);
+	return 0;
+}
+
+/* argw(k): the k-th word as it is; argf(k): the k-th word (hex text) as a floating-point value */
+static int fnc_argw (hawk_rtx_t* rtx, const hawk_fnc_info_t* fi)
+{
+	int k = get_k(rtx);
+	const char* w = (k >= 0 && k < NW)? W[k]: "";
+	hawk_val_t* v = hawk_rtx_makestrvalwithbchars(rtx, w, strlen(w));
+	if (!v) return -1;
+	hawk_rtx_setretval (rtx, v);
+	return 0;
+}
+
+static int fnc_argf (hawk_rtx_t* rtx, const hawk_fnc_info_t* fi)
+{
+	static unsigned char tmp[1 << 10];
+	int k = get_k(rtx);
+	size_t n = (k >= 0 && k < NW && strlen(W[k]) < sizeof(tmp))? unhex(W[k], tmp): 0;
+	hawk_val_t* v;
+	tmp[n] = '\0';
+	v = hawk_rtx_makefltval(rtx, (hawk_flt_t)strtod((char*)tmp, NULL));
 	if (!v) return -1;
 	hawk_rtx_setretval (rtx, v);
 	return 0;
@@ -363,6 +397,8 @@ int main (void)
 	add_fnc (hawk, "nextop", 0, 0, fnc_nextop);
 	add_fnc (hawk, "arg", 1, 1, fnc_arg);
 	add_fnc (hawk, "argn", 1, 1, fnc_argn);
+	add_fnc (hawk, "argw", 1, 1, fnc_argw);
+	add_fnc (hawk, "argf", 1, 1, fnc_argf);
 	add_fnc (hawk, "esc", 1, 1, fnc_esc);
 	add_fnc (hawk, "snap", 0, 0, fnc_snap);
 	add_fnc (hawk, "spanok", 1, 1, fnc_spanok);
@@ -412,6 +448,7 @@ int main (void)
 			failed = 1;
 			if (en == HAWK_EINVAL) o += sprintf(o, "ERR einval ");
 			else if (en == HAWK_EPOSIDX) o += sprintf(o, "ERR eposidx ");
+			else if (en == HAWK_ENOMEM) o += sprintf(o, "ERR enomem ");
 			else o += sprintf(o, "ERR e%d ", (int)en);
 			o = full_state(rtx, o);
 			o = lang_state(rtx, o);
